@@ -152,7 +152,7 @@ PROPS['C12'] = dict(
         K('poulpy-cpu-ref', 'hal_defaults::scratch::verif_kani', ['c12_take_slice_aligned_contract', 'c12_take_slice_aligned_panics_iff_too_small',
           'c12_take_slice_default_u8', 'c12_take_slice_default_i64', 'c12_take_slice_default_f64', 'c12_take_slice_default_i128'], cls='complete', timeout=600,
           functions=['hal_defaults::scratch::take_slice_aligned', 'HalScratchDefaults::take_slice_default', 'HalScratchDefaults::scratch_available_default', 'HalScratchDefaults::scratch_from_bytes_default']),
-        V('vec_znx_ring'), V('vec_znx_normalize'), V('hal_glue'), V('vmp_fft64'), V('glwe_ops'), V('core_keyswitch'), V('core_extprod'), V('core_decrypt'),
+        V('vec_znx_ring'), V('vec_znx_normalize'), V('hal_glue'), V('hal_delegates'), V('vmp_fft64'), V('glwe_ops'), V('core_keyswitch'), V('core_extprod'), V('core_decrypt'),
         K('poulpy-cpu-ref', 'verif_kani::c12_window', [f'c12_window_{op}__n4' for op in ('normalize_assign', 'rotate_assign', 'automorphism_assign', 'mul_xp_minus_one_assign', 'lsh_assign', 'rsh_assign')],
           cls='bounded', timeout=1200, bound='N=4 (limb byte size 32: not a multiple of the 64-byte alignment), size 2',
           functions=['HAL traits VecZnx{Normalize,Rotate,Automorphism,MulXpMinusOne,Lsh,Rsh}Assign with a scratch of exactly the companion *_tmp_bytes; two runs with different scratch contents']),
@@ -288,12 +288,12 @@ PROPS['C19'] = dict(
     technique='Verus contracts on the real text of GLWEDecompress::decompress_glwe, vec_znx_fill_uniform_ref, znx_fill_uniform_ref and Source::next_u64n (the stream is an uninterpreted function of (seed, word index)); Kani bounded contract check of the same decompression with the stream abstracted to a symbolic tape',
     level_text='Unbounded (every ring degree, rank, limb count, radix 1..=63): after decompression column 0 is the stored body (limbs beyond the stored size zero), and coefficient k of limb j of mask column i is the balanced digit of word ((i-1)*size + j)*N + k of the stream seeded by the stored seed -- columns 1..rank, limb-major, in order on ONE stream, exactly one word per coefficient (the rejection loop of next_u64n never iterates for a power-of-two bound); nothing else is written. Bounded (Kani, N = 2, (rank, size) in {(2,2), (3,1)}): the same order statement by executing the real code on a symbolic tape.',
     level_note='That the ENCRYPTION side (glwe_encrypt_sk_internal) fills its mask columns in the same order from the same stream is read off the source (a `(1..cols)` loop of vec_znx_fill_uniform on source_xa), not proved; body equality needs the DFT and is undecided; GGLWE/GGSW/key decompression (loops over this routine) and serialisation after compression are not covered.',
-    units=[V('sampling'),
+    units=[V('sampling'), V('core_encrypt'),
            K('poulpy-cpu-ref', 'verif_kani', ['c19_glwe_decompress_mask_order__n2_rank2_size2', 'c19_glwe_decompress_mask_order__n2_rank3_size1'], cls='bounded', timeout=1500,
              bound='N=2, (rank, size) in {(2,2), (3,1)}', functions=['GLWEDecompress::decompress_glwe', 'vec_znx_fill_uniform_ref', 'VecZnx::fill_uniform'])],
     trusted_base=VERUS_TRUST + [FMT_STUB, 'Source reduced to (seed, words drawn); next_u64 returns draw(seed, pos) and advances by one (ChaCha8 itself uninterpreted)', 'I-GLWE / I-NEWTYPE preludes; SetLWEInfos::set_base2k changes only the radix (restated)'],
     assumptions=['stream abstraction: the k-th 64-bit word of the ChaCha8 stream is an uninterpreted function of (seed, k)'],
-    remainder='bit-identity of the body with standard encryption (DFT), that encryption draws the mask in the same order (syntactic), GGLWE/GGSW/switching/automorphism/tensor/blind-rotation key decompression, serialisation after compression',
+    remainder='bit-identity of the body with standard encryption (DFT), that encryption draws the mask in the same order (syntactic), GGSW/switching/automorphism/tensor/GGLWE-to-GGSW/blind-rotation key encryption and decompression (the GGLWE matrix routines they call ARE under contract, unit core_encrypt: per cell the gadget plaintext, the seed drawn, where it is stored, the order of the error stream), serialisation after compression',
 )
 
 PROPS['C02'] = dict(
@@ -330,7 +330,7 @@ PROPS['C06'] = dict(
     technique='Kani contract check of the real uniform sampling kernels with the ChaCha8 stream abstracted to a symbolic tape: range, bijection on the low bits, one draw per coefficient, column frame; Verus contracts on the real text of Source::next_u64n, znx_fill_uniform_ref and vec_znx_fill_uniform_ref (unbounded in N and limb count): which stream word lands in which coefficient',
     level_text='Unbounded (Verus): coefficient k of limb j of the filled column is the balanced digit of stream word pos + j*N + k, the source advances by exactly N*size words, no other limb is written -- the mask is a function of the mask seed and the stream position only. Complete in stream values and radix (1..=62/63), bounded in shape (N=2, size 2) (Kani): every mask limb lies in [-2^(b-1), 2^(b-1)) and is a bijective image of the low b bits of exactly one stream word, coefficients consume the stream in order (limb-major), other columns are untouched; next_u64n never rejects for power-of-two bounds.',
     level_note='Statistical claims (sigma of the error, uniformity of ChaCha8 itself) and seed separation of the encryption routines are not contract properties / not covered; Source::new is abstracted (cpuid).',
-    units=[V('sampling'),
+    units=[V('sampling'), V('core_encrypt'),
            K('poulpy-hal', 'verif_kani', ['c06_next_u64n_power_of_two', 'c06_vec_znx_fill_uniform__n2_size2'], cls='complete', timeout=900, functions=['Source::next_u64n', '<VecZnx as FillUniform>::fill_uniform']),
            K('poulpy-cpu-ref', 'verif_kani', ['c06_vec_znx_fill_uniform_ref__n2_size2'], cls='complete', timeout=900, functions=['znx_fill_uniform_ref', 'vec_znx_fill_uniform_ref'])],
     trusted_base=VERUS_TRUST + ['Source reduced to (seed, words drawn) in the Verus unit'],
